@@ -2204,6 +2204,23 @@ int EGLPNUM_TYPENAME_ILLlib_addcol (
 	A = &qslp->A;
 	ncols = qslp->ncols;
 
+	/* check all arguments before the first write: a failing call changes nothing */
+	for (pind = 0; pind < cnt; pind++)
+	{
+		if (ind[pind] < 0 || ind[pind] >= qslp->nrows)
+		{
+			QSlog("illegal row index %d in EGLPNUM_TYPENAME_ILLlib_addcol", ind[pind]);
+			rval = 1;
+			ILL_CLEANUP;
+		}
+	}
+	if (name && ILLsymboltab_contains (&qslp->coltab, name))
+	{
+		QSlog("column name %s already in use", name);
+		rval = 1;
+		ILL_CLEANUP;
+	}
+
 	if (qslp->rA)
 	{															/* After an addcol call, needs to be updated */
 		EGLPNUM_TYPENAME_ILLlp_rows_clear (qslp->rA);
